@@ -172,9 +172,13 @@ impl<T> SourceText<T> where T: AsRef<str> {
     /// Returns the position of the start of line containing the given base
     /// position.
     pub fn line_start_position(&self, base: Pos) -> Pos {
-        base.with_byte_offset(self.offset.byte,
+        let start = base.with_byte_offset(self.offset.byte,
                 |b| Some(self.metrics.line_start_position(self.as_str(), b)))
-            .unwrap()
+            .unwrap();
+        // The start of the text need not be the start of a line in the
+        // enclosing document: there, the position is the text's start
+        // position rather than column 0.
+        if start.byte == self.offset.byte { self.offset } else { start }
     }
 
     /// Returns the position at the start of the next line after the given base
